@@ -33,6 +33,25 @@ theorem segment_acked_iff (a0 : Nat) (h : List Pkt) (hc : conforming a0 [] h = t
     isSegmentAcked (trackerAfter a0 h) (wrap32 s) n = true ↔ SegAcked (cumAck a0 h) (allBlocks [] h) s n :=
   isSegmentAcked_iff (rep_run h (rep_init a0 true) rfl hc) s n hd
 
+/-- The reading of "for all query segments (seq,len)" without the window: every 32-bit length and every start
+    position within half the sequence space of the ACK.  It is *false* — kept visible as a `Prop`, refuted below: a
+    segment longer than 2^31 (or reaching beyond `A + 2^31`) has no meaning in serial-number arithmetic (RFC 1982),
+    `AckedRange(seq, seq+len-1)` is then empty and `is_segment_acked` answers `true`.  What `segment_acked_iff` leaves
+    out is exactly `¬ queryInDomain`: `len > 2^31`, `seq ≤ A - 2^31`, or `seq + len > A + 2^31`. -/
+def SegmentAckedAnyLength : Prop :=
+  ∀ (a0 : Nat) (h : List Pkt), conforming a0 [] h = true → ∀ s n, n < 4294967296 →
+    cumAck a0 h < s + half → s < cumAck a0 h + half →
+    (isSegmentAcked (trackerAfter a0 h) (wrap32 s) n = true ↔ SegAcked (cumAck a0 h) (allBlocks [] h) s n)
+
+/-- witness: nothing acknowledged beyond position 3, query `(3, 2^31 + 1)` answers "acknowledged" -/
+theorem segmentAckedAnyLength_fails : ¬ SegmentAckedAnyLength := by
+  intro hall
+  have h := hall 3 [] rfl 3 2147483649 (by decide) (by decide) (by decide)
+  have hq : isSegmentAcked (trackerAfter 3 []) (wrap32 3) 2147483649 = true := by decide
+  rcases h.1 hq 3 (Nat.le_refl 3) (by omega) with h' | h'
+  · exact absurd h' (by decide)
+  · exact absurd h' (by decide)
+
 /-- **Representation.** `acked_intervals()` is *the* list of maximal runs of that point set: any ascending list of
     non-empty, non-touching closed intervals with the same points is equal to it (what `icl::first/last` iteration
     shows is determined by the specification, not only its point set). -/
@@ -54,6 +73,34 @@ theorem intervals_are_the_maximal_runs (a0 : Nat) (h : List Pkt) (hc : conformin
 theorem intervals_always_canonical (a0 : Nat) (b : Bool) (h : List Pkt) :
     Good (run (Tracker.init (wrap32 a0) b) h) :=
   good_run _ h ⟨wrap32_lt a0, trivial⟩
+
+/-- … step form: one `process_packet` call with any 32-bit ACK and any SACK option content keeps it canonical. -/
+theorem canonical_preserved_by_any_packet (t : Tracker) (a : Nat) (sack : SackOpt) (hg : Good t)
+    (ha : a < 4294967296) (he : ∀ e, sack = .edges e → ∀ x ∈ e, x < 4294967296) :
+    Good (processPacket t a sack).1 :=
+  good_processPacket t a sack hg ha he
+
+/-- **SACK off.** With `use_sack_ == false` the tracker follows the cumulative ACK (any number of wraps) and never
+    stores an interval, whatever SACK blocks the packets carry. -/
+theorem ack_only_without_sack (a0 : Nat) (h : List Pkt) (hc : acksOK a0 h = true) :
+    (run (Tracker.init (wrap32 a0) false) h).ack = wrap32 (cumAck a0 h) ∧
+    (run (Tracker.init (wrap32 a0) false) h).ivs = [] := by
+  have hr := rep_run_noSack h (rep_init a0 false) rfl hc
+  refine ⟨hr.ack, ?_⟩
+  have hg : Good (run (Tracker.init (wrap32 a0) false) h) := good_run _ h ⟨wrap32_lt a0, trivial⟩
+  apply canon_ext _ [] hg.2 trivial
+  intro x
+  cases e : ISet.mem (run (Tracker.init (wrap32 a0) false) h).ivs x with
+  | false => rfl
+  | true =>
+    obtain ⟨p, _, _, hp⟩ := (hr.pts x).1 e
+    simp [sacked] at hp
+
+/-- **Option bytes.** The SACK option `TCP::sack(edges)` writes (big-endian 32-bit edges) is decoded by the
+    `vector<uint32_t>` converter to the same edges, so `feed` is `process_packet` on the packet a peer would send. -/
+theorem sack_option_roundtrip (bs : List Blk) :
+    decodeSack (encodeEdges (edgesOf bs)) = .edges (edgesOf bs) :=
+  decodeSack_encodeEdges _ (edgesOf_lt bs)
 
 /-- The same invariant from any tracker state that represents some observer knowledge (so the two theorems above
     also hold for a tracker that is queried and fed in any interleaving). -/
@@ -115,6 +162,7 @@ def sampleHistory : List Pkt :=
    ⟨8589934610, []⟩]
 
 example : conforming 8589934582 [] sampleHistory = true := by decide
+example : acksOK 8589934582 sampleHistory = true := by decide
 example : conforming 8589934582 [] (sampleHistory.take 2) = true ∧
     queryInDomain (cumAck 8589934582 (sampleHistory.take 2)) 8589934589 8 = true := by decide
 /-- the window hypothesis is tight but satisfiable at its edge: a block ending exactly at `A + 2^31` -/
